@@ -162,7 +162,11 @@ func scenC09(r *Run) {
 			case 8:
 				kind = "impostor-actor-id-differs-slightly"
 				look := X + "/"
-				if t.Chance(1, 3) {
+				if t.Chance(1, 4) {
+					// the same path with a query: another resource (/?author=1 and /?author=2 are two people)
+					look = X + []string{"?v=2", "?author=2", "?", "#me"}[t.Draw(3)]
+					kind = "impostor-actor-id-differs-in-the-query"
+				} else if t.Chance(1, 3) {
 					// the same spelling plus a character that no terminal shows (a directional override, a
 					// zero-width space, a soft hyphen, a byte-order mark): a different identifier, and a
 					// different address on the same host
@@ -259,6 +263,11 @@ func scenC09(r *Run) {
 			case 4:
 				kind = "impostor-reply-to-other-post"
 				extra["inReplyTo"] = Q
+				if t.Chance(1, 3) {
+					// the other post has this post's path and differs in the query only
+					extra["inReplyTo"] = P + []string{"?p=2", "?page=1", "?"}[t.Draw(3)]
+					kind = "impostor-reply-to-post-that-differs-in-the-query"
+				}
 				it.Err = true
 			case 5:
 				kind = "impostor-no-inReplyTo"
